@@ -408,6 +408,14 @@ def render_write_frame(spec):
         fn = find(parse(rel), q)
         rebinds = [n.lineno for n in ast.walk(fn)
                    if isinstance(n, ast.Name) and n.id == 'body' and isinstance(n.ctx, ast.Store)]
+        # ... and nothing is derived from it on the way to the hash except its encoding: no other
+        # method of the body is called, no part of it is cut out
+        for n in ast.walk(fn):
+            if isinstance(n, ast.Attribute) and isinstance(n.value, ast.Name) and n.value.id == 'body' \
+                    and n.attr != 'encode':
+                rebinds.append(n.lineno)
+            if isinstance(n, ast.Subscript) and isinstance(n.value, ast.Name) and n.value.id == 'body':
+                rebinds.append(n.lineno)
         obls.append(ob('%s.body_unmodified' % q, not rebinds,
                        '%s hashes the template body exactly as given (no normalisation that the '
                        'compiler does not also apply)' % q, {'body_rebound_at_lines': rebinds}))
@@ -608,6 +616,13 @@ cands = {
  'implicit_i18n_translate': ({'implicit_i18n_translate': True}, {'implicit_i18n_translate': False}, '<a>text</a>'),
  'trim_attribute_space': ({'trim_attribute_space': True}, {'trim_attribute_space': False}, '<a  x="1"\n   y="2"/>'),
  'body:non-ascii': ({'_body': '<p>Gr\u00fc\u00dfe</p>'}, {'_body': '<p>Gr\u00f6\u00dfe</p>'}, None),
+ 'body:crlf-xml': ({'_body': '<?xml version="1.0"?>\r\n<a>\r\n</a>'}, {'_body': '<?xml version="1.0"?>\n<a>\n</a>'}, None),
+ 'body:cr-xml': ({'_body': '<?xml version="1.0"?>\r<a>\r</a>'}, {'_body': '<?xml version="1.0"?>\n<a>\n</a>'}, None),
+ 'body:case': ({'_body': '<P>a</P>'}, {'_body': '<p>a</p>'}, None),
+ 'body:tab-vs-space': ({'_body': '<p\tx="1">a</p>'}, {'_body': '<p x="1">a</p>'}, None),
+ 'body:trailing-space': ({'_body': '<p>a</p> '}, {'_body': '<p>a</p>'}, None),
+ 'body:nul': ({'_body': '<p>a\x00</p>'}, {'_body': '<p>a</p>'}, None),
+ 'body:bom': ({'_body': '\ufeff<p>a</p>'}, {'_body': '<p>a</p>'}, None),
  'extra_builtins:order': ({'extra_builtins': {'va': 1, 'vb': 2}}, {'extra_builtins': {'vb': 2, 'va': 1}}, '<a>${va}${vb}</a>'),
  'extra_builtins:order3': ({'extra_builtins': {'zz': 1, 'aa': 2, 'mm': 3}}, {'extra_builtins': {'mm': 3, 'zz': 1, 'aa': 2}}, '<a>${aa}</a>'),
  'extra_builtins:names': ({'extra_builtins': {'va': 1}}, {'extra_builtins': {'vb': 1}}, '<a/>'),
